@@ -44,6 +44,11 @@ def configs(tier):
         out.append((dict(name=name, procs=procs, jobs=jobs, script=script,
                          pool=pk, oracle='c08'), b,
                     4000 if not T else 60000))
+    # terminate() landing inside a supervision round that starts several
+    # workers (needs two departures from the default schedule)
+    out.append((dict(name='grow-then-terminate/1proc', procs=1, jobs=[],
+                     script=['grow:2', 'sleep:0.8', 'terminate'], pool={},
+                     oracle='c08'), 3, 45000 if not T else 200000))
     # without helper threads: the embedder (here the user vthread) drives
     # the handlers itself
     nothreads = [
@@ -83,6 +88,8 @@ def main(tier, seed, only=None):
             rep.violation(msg + '\nconfig=%s log tail=%r' % (cfg['name'], log[-6:]),
                           dict(harness='l3', config=cfg, choices=ch),
                           signature=sig)
+    if not only or 'remap' in only:
+        remap_part(rep, tier)
     if not only or 'L1' in only:
         l1.part(rep, tier, 'L1-worker-termination-signal', [signal.SIGTERM],
                 pick=lambda c: not c.get('consume') and (
@@ -95,9 +102,61 @@ def main(tier, seed, only=None):
     return rep.finish()
 
 
+def remap_part(rep, tier):
+    """The termination signal is configurable (REMAP_SIGTERM=SIGQUIT is read
+    when billiard.common is imported): the in-task / terminate_job / hard-limit
+    scenarios again in an interpreter started with that setting."""
+    import json
+    import os
+    import subprocess
+    import sys
+    env = dict(os.environ, REMAP_SIGTERM='SIGQUIT', VMC_C08_REMAP='1')
+    p = subprocess.run([sys.executable, '-m', 'harness.c08'], env=env,
+                       stdout=subprocess.PIPE, stderr=subprocess.PIPE,
+                       timeout=1500)
+    try:
+        res = json.loads(p.stdout.decode().strip().splitlines()[-1])
+    except Exception:
+        raise RuntimeError('remap part failed: %s %s' % (
+            p.stdout[-500:], p.stderr[-1500:]))
+    st = explore.Stats()
+    for name, d in res:
+        found = d.pop('found')
+        st.merge(d)
+        for msg, ch, sig, log in found:
+            rep.violation('[REMAP_SIGTERM=SIGQUIT] ' + msg +
+                          '\nconfig=%s' % name,
+                          dict(harness='l3', config=name, choices=ch,
+                               remap='SIGQUIT'), signature=sig)
+    rep.stats('remapped-termination-signal', st, delay_bound=1,
+              configs=len(res))
+
+
+def _remap_main():
+    import json
+    from harness import l3
+    from vmc import par
+    par.pin()
+    import billiard.common as bc
+    assert bc.TERM_SIGNAME == 'SIGQUIT', bc.TERM_SIGNAME
+    want = ('in-task/1proc', 'terminate_job/2proc', 'hard-limit/1proc',
+            'in-task+queued/2proc')
+    out = []
+    for cfg, b, cap in configs('quick'):
+        if cfg['name'] in want:
+            out.append((cfg['name'], l3.explore_cfg((cfg, 1, 1500))))
+    print(json.dumps(out, default=repr))
+
+
 def replay(rp):
     if rp.get('harness') == 'l1':
         from harness import l1
         return l1.replay(rp)
     from harness import l3
     return l3.replay(rp)
+
+
+if __name__ == '__main__':
+    import os as _os
+    if _os.environ.get('VMC_C08_REMAP'):
+        _remap_main()
